@@ -23,10 +23,27 @@ def native(fn):
     except Exception:  # pragma: no cover
         return fn
 
+    import pathlib
+
+    plain_types = (str, int, bool, type(None), float, bytes, type)
+
+    def plain(x, depth=0):
+        t = type(x)
+        if t in plain_types or issubclass(t, pathlib.PurePath):
+            return True
+        if depth < 3 and t in (tuple, list):
+            return all(plain(y, depth + 1) for y in x)
+        return False
+
     @functools.wraps(fn)
     def wrapper(*a, **k):
         if not is_tracing():
             return fn(*a, **k)
+        with NoTracing():
+            ok = all(plain(x) for x in a) and all(plain(x) for x in k.values())
+        if ok:
+            with NoTracing():
+                return fn(*a, **k)
         a2 = deep_realize(a)
         k2 = deep_realize(k)
         with NoTracing():
@@ -44,3 +61,42 @@ class NativeLicensing:
 
     def __getattr__(self, name):
         return getattr(self._real, name)
+
+
+_NATIVIZED = set()
+
+
+def nativize(cls, names):
+    """Register CrossHair patches so that the named methods of *cls* run natively on
+    realised arguments (pure functions of concrete values: pathlib and the like)."""
+    try:
+        from crosshair.core import register_patch
+    except Exception:  # pragma: no cover
+        return
+    for n in names:
+        f = cls.__dict__.get(n)
+        if f is None:
+            continue
+        if isinstance(f, (staticmethod, classmethod)):
+            f = f.__func__
+        if isinstance(f, property):
+            f = f.fget
+        if (cls, n) in _NATIVIZED:
+            continue
+        _NATIVIZED.add((cls, n))
+        try:
+            register_patch(f, native(f))
+        except Exception:  # already registered
+            pass
+
+
+def nativize_pathlib():
+    import pathlib
+
+    names = [
+        "relative_to", "is_relative_to", "as_posix", "__str__", "__eq__", "__hash__", "__truediv__", "__rtruediv__",
+        "__fspath__", "with_segments", "joinpath", "__lt__", "__le__", "__gt__", "__ge__", "__repr__", "match", "with_name", "with_suffix",
+        "__init__", "_load_parts", "_parse_path", "_from_parsed_parts", "_format_parsed_parts", "_str_normcase", "drive", "root", "_tail",
+        "parts", "parent", "parents", "name", "suffix", "stem", "anchor", "_parts_normcase", "__reduce__", "is_absolute",
+    ]
+    nativize(pathlib.PurePath, names)
